@@ -379,12 +379,59 @@ func (g *Graph) DefOf(id *ast.Ident, at Site) (rhs ast.Expr, idx int) {
 		return nil, 0
 	}
 	if at.B != nil {
-		for i := at.I; i >= 0; i-- {
-			if i >= len(at.B.Nodes) {
-				continue
+		// reaching definitions by backward search: on every backward path the nearest
+		// assignment; decided only if all paths agree on one assignment.
+		type res struct {
+			rhs ast.Expr
+			idx int
+			n   ast.Node
+		}
+		var defs []res
+		undefined := false
+		preds := g.Preds()
+		seen := map[*Block]bool{}
+		var back func(b *Block, from int)
+		back = func(b *Block, from int) {
+			for i := from; i >= 0; i-- {
+				if i >= len(b.Nodes) {
+					continue
+				}
+				nd := b.Nodes[i]
+				if nd.End() > id.Pos() && b == at.B && i == at.I {
+					// the node containing the use: only an if/switch init placed before it counts
+					if r, k, ok := f.assignTo(nd, obj); ok && nd.End() <= id.Pos() {
+						defs = append(defs, res{r, k, nd})
+						return
+					}
+					continue
+				}
+				if r, k, ok := f.assignTo(nd, obj); ok {
+					defs = append(defs, res{r, k, nd})
+					return
+				}
 			}
-			if r, k, ok := f.assignTo(at.B.Nodes[i], obj); ok && at.B.Nodes[i].End() <= id.Pos() {
-				return r, k
+			if len(preds[b]) == 0 {
+				undefined = true
+				return
+			}
+			for _, p := range preds[b] {
+				if seen[p] {
+					continue
+				}
+				seen[p] = true
+				back(p, len(p.Nodes)-1)
+			}
+		}
+		back(at.B, at.I)
+		if !undefined && len(defs) > 0 {
+			same := true
+			for _, d := range defs[1:] {
+				if d.n != defs[0].n {
+					same = false
+				}
+			}
+			if same {
+				return defs[0].rhs, defs[0].idx
 			}
 		}
 	}
@@ -660,4 +707,11 @@ func (f *Fn) Src(e ast.Node) string {
 		return types.ExprString(x)
 	}
 	return f.Prog.Rel(e.Pos())
+}
+
+func constantInt(c constant.Value) (int64, bool) {
+	if c.Kind() != constant.Int {
+		return 0, false
+	}
+	return constant.Int64Val(c)
 }
